@@ -74,6 +74,38 @@ fn check(rep: &mut Report, times: bool, ops: &[Op; 3]) {
     }
 }
 
+/// C10: a state is a value.  A disjunction gives every branch a clone of the incoming state; whatever one branch does
+/// (bind through a constraint, add a constraint) must leave the clone held by the other branch as it was.  Here the two
+/// branches are run by hand on two clones of one prefix state, first in one order and then in the other.
+fn isolation(rep: &mut Report, times: bool, a: isize, b: isize) {
+    let name = "isolation";
+    let inp = format!("{} {} {}", if times { "timesz" } else { "plusz" }, a, b);
+    rep.case(name, inp.clone());
+    let r = guard(move || -> Result<(), String> {
+        let vars: Vec<T> = vec![LTerm::var("x"), LTerm::var("y"), LTerm::var("w"), LTerm::var("v")];
+        let mk = |u: &T, v: &T, w: &T| if times { TimesZConstraint::new(u.clone(), v.clone(), w.clone()) } else { PlusZConstraint::new(u.clone(), v.clone(), w.clone()) };
+        let res = if times { a * b } else { a + b };
+        for order in 0..2 {
+            let mut st: S = State::new(DefaultUser::new());
+            st = st.unify(&vars[0], &LTerm::from(a)).map_err(|_| "prefix")?;
+            st = st.unify(&vars[1], &LTerm::from(b)).map_err(|_| "prefix")?;
+            // a pending constraint shared by both branches: x + v = w, v still unbound (solvable for every w)
+            st = PlusZConstraint::new(vars[0].clone(), vars[3].clone(), vars[2].clone()).run(st).map_err(|_| "prefix constraint")?;
+            let (s1, s2) = (st.clone(), st.clone());
+            let branch_a = |s: S| -> Result<S, ()> { mk(&vars[0], &vars[1], &vars[2]).run(s) };          // binds w = a (+|*) b, which also fires the pending one
+            let branch_b = |s: S| -> Result<S, ()> { s.unify(&vars[2], &LTerm::from(res + 1)) };           // binds w to another value
+            let (ra, rb) = if order == 0 { let x = branch_a(s1); let y = branch_b(s2); (x, y) } else { let y = branch_b(s2); let x = branch_a(s1); (x, y) };
+            let wa = ra.as_ref().ok().and_then(|s| s.smap_ref().walk(&vars[2]).get_number());
+            let wb = rb.as_ref().ok().and_then(|s| s.smap_ref().walk(&vars[2]).get_number());
+            if wa != Some(res) { return Err(format!("order {}: branch A gives w = {:?}, expected {}", order, wa, res)); }
+            if wb != Some(res + 1) { return Err(format!("order {}: branch B gives w = {:?}, expected {} (what branch A did must not be visible)", order, wb, res + 1)); }
+            if st.smap_ref().walk(&vars[2]).get_number().is_some() { return Err(format!("order {}: the prefix state itself was changed by a branch", order)); }
+        }
+        Ok(())
+    });
+    match r { Ok(Ok(())) => {}, Ok(Err(e)) => rep.fail(name, inp, "each branch sees only its own bindings".into(), e, "leak"), Err(e) => rep.fail(name, inp, "no panic".into(), e, "panic") }
+}
+
 pub fn search(tier: &str, only: Option<&str>) {
     let r: isize = if tier == "thorough" { 6 } else { 3 };
     let mut vals: Vec<isize> = (-r..=r).collect();
@@ -85,12 +117,14 @@ pub fn search(tier: &str, only: Option<&str>) {
         if let Some(o) = only { if (o == "timesz") != times && (o == "plusz" || o == "timesz") { continue; } }
         for a in &kinds { for b in &kinds { for c in &kinds { check(&mut rep, times, &[*a, *b, *c]); } } }
     }
+    if only.is_none() { for times in [false, true] { for a in [1isize, 2, -1] { for b in [2isize, 3] { isolation(&mut rep, times, a, b); } } } }
     rep.print();
 }
 
 pub fn replay(input: &str) {
     let p: Vec<&str> = input.split_whitespace().collect();
     let mut rep = Report::new("clpz", "replay");
+    if p[0] == "isolation" { isolation(&mut rep, p[1] == "timesz", p[2].parse().unwrap(), p[3].parse().unwrap()); rep.print(); return; }
     let times = p[0] == "timesz";
     check(&mut rep, times, &[Op::parse(p[1]), Op::parse(p[2]), Op::parse(p[3])]);
     rep.print();
